@@ -77,6 +77,13 @@ class _Continue(Exception):
     pass
 
 
+class SpecAbort(Exception):
+    """Speculative (if-conversion) execution met something that needs a real fork."""
+
+
+_MISSING = object()
+
+
 class PathEnd(Exception):
     """Current path is abandoned (assume False / loop body closed)."""
 
@@ -203,10 +210,68 @@ class Interp:
 
     def st_If(self, st, fr):
         c = self.truth(self.eval(st.test, fr), st)
+        if not isinstance(c, bool) and self._if_convert(c, st.body, st.orelse, fr):
+            return
         if self.ctx.branch(c, st):
             self.exec_block(st.body, fr)
         else:
             self.exec_block(st.orelse, fr)
+
+    def _speculate(self, thunk, fr):
+        """Run thunk without forking, heap writes, obligations or control transfer; returns
+        (ok, locals after). The caller's locals are restored in every case."""
+        ctx = self.ctx
+        saved = dict(fr.locals)
+        nlog = len(ctx.log)
+        ctx.speculating += 1
+        try:
+            thunk()
+            return True, dict(fr.locals)
+        except (SpecAbort, PyRaise, _Return, _Break, _Continue):
+            del ctx.log[nlog:]
+            return False, None
+        finally:
+            ctx.speculating -= 1
+            fr.locals.clear()
+            fr.locals.update(saved)
+
+    def _if_convert(self, c, body, orelse, fr):
+        """If both arms only rebind scalar locals (no fork, heap write, raise, return inside),
+        merge them with if-then-else terms instead of forking the path."""
+        if not self.ctx.if_conversion:
+            return False
+        ok1, l1 = self._speculate(lambda: self.exec_block(body, fr), fr)
+        if not ok1:
+            return False
+        ok2, l2 = self._speculate(lambda: self.exec_block(orelse, fr), fr)
+        if not ok2:
+            return False
+        merged = {}
+        for k in set(l1) | set(l2):
+            a, b = l1.get(k, _MISSING), l2.get(k, _MISSING)
+            if a is b:
+                merged[k] = a
+                continue
+            if a is _MISSING or b is _MISSING:
+                return False
+            try:
+                same = sym.values_equal(a, b)
+            except Unsupported:
+                same = False
+            if same is True and not isinstance(a, (PObj, PList, PDict)):
+                merged[k] = a
+                continue
+            scal = lambda v: (sym.is_num(v) or isinstance(v, (bool, z3.BoolRef, str, SStr))) and v is not None
+            if not (scal(a) and scal(b)):
+                return False
+            if isinstance(a, (str, SStr)) != isinstance(b, (str, SStr)):
+                return False
+            try:
+                merged[k] = sym.ite(c, a, b)
+            except Unsupported:
+                return False
+        fr.locals.update(merged)
+        return True
 
     def st_Return(self, st, fr):
         raise _Return(self.eval(st.value, fr) if st.value is not None else None)
@@ -453,6 +518,11 @@ class Interp:
             v = self.load_global(fr.module, name)
             if v is not NotImplemented:
                 return v
+        fb = getattr(fr, "fallback", None)
+        if fb is not None:
+            v = self.load_global(fb, name)
+            if v is not NotImplemented:
+                return v
         v = self.builtin(name)
         if v is not NotImplemented:
             return v
@@ -640,6 +710,22 @@ class Interp:
             a = self.eval(e.body, fr)
             b = self.eval(e.orelse, fr)
             return sym.ite(c, a, b)
+        if self.ctx.if_conversion:
+            box = {}
+
+            def t1():
+                box["a"] = self.eval(e.body, fr)
+
+            def t2():
+                box["b"] = self.eval(e.orelse, fr)
+
+            ok1, _ = self._speculate(t1, fr)
+            ok2, _ = self._speculate(t2, fr) if ok1 else (False, None)
+            if ok1 and ok2:
+                a, b = box["a"], box["b"]
+                scal = lambda v: sym.is_num(v) or isinstance(v, (bool, z3.BoolRef))
+                if scal(a) and scal(b) and a is not None and b is not None:
+                    return sym.ite(c, a, b)
         if self.ctx.branch(c, e):
             return self.eval(e.body, fr)
         return self.eval(e.orelse, fr)
